@@ -440,6 +440,46 @@ func targets() []*target {
 			cond: func(fd *ast.FuncDecl) ast.Expr { return varInit(slogPkg(), "inTesting") },
 			params: []string{"(f_InTesting f_InBenchmark f_InDebugging f_DebugMode f_DebugBuild : bool)"}, result: "bool", final: "false"},
 
+		// ---- bare entry points (C01, C03): which internal routine a call ends in, and with what ----
+		// Entry.Println: every path must end in s.log1 (the gate and the caller depth of every other entry point);
+		// the routines a short cut could use instead (printOut, print, printImpl, logContext) are declared too, so that
+		// such an edit is a different route and not a fall-back
+		{pkg: slogPkg, recv: "Entry", fn: "Println", coq: "println_route", file: "Routes", strict: true, fallback: "RouteRef.println_route_ref",
+			comment: "(the internal call the function ends in; RNone = none, RPanic = a run-time panic)", panicT: "RPanic", inlineVars: true,
+			tymap: map[string]string{"[]any": "list garg", "any": "garg", "[]byte": "list Z"},
+			calls: map[string]callSpec{
+				"*Entry.log1":       {tail: "RLog1 %0 %1 %2", spread: true},
+				"*Entry.logContext": {tail: "RLogContext %1 %3 %4", spread: true, lazy: true},
+				"*Entry.printOut":   {tail: "RPrintOut %0 %1"},
+				"fmt.Sprint":        {pure: "f_sprint %0"},
+			},
+			params: []string{"(as_string_of_any : garg -> option bytes)", "(f_sprint : garg -> bytes)", "(args : list garg)"},
+			result: "route", final: "RNone"},
+		// Entry.printImpl, its first statement: a blank Always record is handed to s.printOut (the delivery routine of
+		// every record: writer selection, told level, error handling) as one line feed; what is delivered before the
+		// formatting starts is the trace
+		{pkg: slogPkg, recv: "Entry", fn: "printImpl", coq: "blank_line", file: "Routes", strict: true, fallback: "RouteRef.blank_line_ref",
+			comment: "(the first statement: what is delivered before formatting starts, and how)", panicT: "[DPanic]", inlineVars: true, effects: []string{"tr_"},
+			tymap: map[string]string{"[]byte": "list Z", "LogWriter": "option Z"},
+			opaque: map[string]string{"pc.lvl": "pc_lvl", "pc.msg": "pc_msg"}, nilTest: map[string]string{"option Z": "is_nil"},
+			calls: map[string]callSpec{
+				"*Entry.printOut":     {ev: "DPrintOut %0 %1"},
+				"*Entry.findWriter":   {pure: "f_findWriter %0"},
+				"LogWriter.Write":     {ev: "DRawWrite %r %0", res: "(0, @None unit)"},
+				"LWs.Write":           {ev: "DRawWrite None %0", res: "(0, @None unit)"},
+				"strings.Trim":        {pure: "f_trim %0 %1"},
+				"strings.TrimSpace":   {pure: "f_trim %0 [x20]"},
+				"collectWrittenBytes": {ignore: true},
+			},
+			from: func(stmts []ast.Stmt) []ast.Stmt {
+				if len(stmts) > 1 && containsText(stmts[0], "AlwaysLevel") {
+					return stmts[:1]
+				}
+				return nil
+			},
+			params: []string{"(f_trim : bytes -> bytes -> bytes)", "(f_findWriter : Z -> option Z)", "(pc_lvl : Z)", "(pc_msg : bytes)", "(tr_ : list deliv)"},
+			result: "list deliv", final: "tr_"},
+
 		// ---- the buffer methods of PrintCtx (C19) ----
 		bufT("empty", "buf_empty", nil, "bool", "false", false),
 		bufT("Len", "buf_len", nil, "Z", "0", false),
@@ -593,6 +633,7 @@ var genFiles = [][2]string{
 	{"Registry", "Require Import Verif.Model.Base Verif.Model.Decision Verif.Model.Dec Verif.Model.GoSem Verif.Model.Level Verif.Model.RegRef."},
 	{"Loggers", "Require Import Verif.Model.Base Verif.Model.Decision Verif.Model.Dec Verif.Model.GoSem Verif.Model.TreeRef."},
 	{"Handlers", "Require Import Verif.Model.Base Verif.Model.Decision Verif.Model.GoSem Verif.Model.AdaptRef."},
+	{"Routes", "Require Import Verif.Model.Base Verif.Model.Decision Verif.Model.GoSem Verif.Model.TreeRef Verif.Model.RouteRef."},
 	{"Termination", "Require Import Verif.Model.Base Verif.Model.Decision Verif.Model.GoSem Verif.Model.Terminate Verif.Model.TermRef."},
 	{"Context", "Require Import Verif.Model.Base Verif.Model.Decision Verif.Model.GoSem Verif.Model.Attrs Verif.Model.PcRef."},
 	{"LevelNames", "Require Import Verif.Model.Base Verif.Model.Decision Verif.Model.Dec Verif.Model.GoSem Verif.Model.LevelRef."},
